@@ -38,6 +38,9 @@ fn later_frames(a: u32) -> Vec<frames::Frame> {
     for cf in 0..8 {
         v.push(frames::df18(cf, a, frames::me_ident(2, 1, frames::callsign_codes("TIS"))));
         v.push(frames::df18(cf, a, frames::me_airpos(11, 0, 0, frames::ac12_for_alt(5000), 0, (cf & 1) as u32, 93000, 51372)));
+        // the same with ME bit 8 set (single-antenna flag in DF17; TIS-B "ICAO/Mode A flag" when CF says so)
+        v.push(frames::df18(cf, a, frames::me_airpos(11, 0, 1, frames::ac12_for_alt(5000), 0, (cf & 1) as u32, 93000, 51372)));
+        v.push(frames::df18(cf, a, frames::me_airpos(13, 3, 1, frames::ac12_for_alt(9000), 1, 1 - (cf & 1) as u32, 93010, 51380)));
     }
     for (i, cs) in ["GABCD", "DEABC", "EIABC", "N123AB", "FGXYZ", "OKABC", "VHABC", "CFABC", "RA12345", "B1234", "JA123A", "HBABC"].iter().enumerate() {
         let (tc, ca) = [(4u32, 1u32), (4, 7), (3, 1), (3, 4), (2, 1), (1, 0), (4, 3)][i % 7];
@@ -180,6 +183,30 @@ fn run(ctx: &mut Ctx) {
                             Vector { addr: a, lines }
                         })
                         .collect();
+                    // ... and every one of those frames as the FIRST frame of the aircraft (the row is created by it)
+                    if !first_is_df11 {
+                        let nlater = later(chunk[0]).len();
+                        for first in 0..nlater {
+                            let fv: Vec<Vector> = chunk.iter().map(|&a| Vector { addr: a, lines: vec![later(a)[first].hex().into_bytes()] }).collect();
+                            let obs = run_vectors(&cfgx, &fv);
+                            for (a, o) in chunk.iter().zip(obs.iter()) {
+                                ctx.eval();
+                                ctx.count("reg-of-row-created-by-each-format");
+                                let want = lk.code(*a);
+                                // formats that do not create a row (filtered, zero address, ...) are not judged here
+                                if let Some(got) = o.row().map(|s| s.reg.clone()) {
+                                    if got != want {
+                                        ctx.violation(
+                                            &format!("C17/first-frame/{}", cfgx.label()),
+                                            &format!("addr={a:06X}/frame#{first}"),
+                                            || format!("address {a:06X} under [{}], row created by {}: expected {want}, row shows {got:?}", cfgx.label(), later(*a)[first].hex()),
+                                            || json!({"kind": "first", "addr": a, "cfg": cfgx.opts, "first": first}),
+                                        );
+                                    }
+                                }
+                            }
+                        }
+                    }
                     let obs = run_vectors(&cfgx, &vecs);
                     for (a, o) in chunk.iter().zip(obs.iter()) {
                         ctx.eval();
@@ -267,6 +294,20 @@ fn replay(ctx: &mut Ctx, case: &Value) {
             crate::run::say(&format!("line {}: expected {want}, observed {got:?}", frames::df11(5, a, 0).hex()));
             if got.as_deref() != Some(want) {
                 ctx.violation("C17/reader", &format!("addr={a:06X}"), || format!("expected {want}, got {got:?}"), || case.clone());
+            }
+        }
+        Some("first") => {
+            let opts: Vec<String> = case.get("cfg").and_then(|c| c.as_array()).map(|a| a.iter().filter_map(|x| x.as_str().map(String::from)).collect()).unwrap_or_default();
+            let o: Vec<&str> = opts.iter().map(|s| s.as_str()).collect();
+            let cfg = Cfg::new(&o);
+            let first = case.get("first").and_then(|x| x.as_u64()).unwrap_or(0) as usize;
+            let fr = later_frames(a);
+            let f = &fr[first % fr.len()];
+            let obs = run_vectors(&cfg, &[Vector { addr: a, lines: vec![f.hex().into_bytes()] }]);
+            let got = obs[0].row().map(|s| s.reg.clone());
+            crate::run::say(&format!("address {a:06X} under [{}], row created by {}: expected {want}, observed {got:?}", cfg.label(), f.hex()));
+            if got.is_some() && got.as_deref() != Some(want) {
+                ctx.violation("C17/first-frame", &format!("addr={a:06X}"), || format!("expected {want}, got {got:?}"), || case.clone());
             }
         }
         Some("later") => {
